@@ -62,6 +62,9 @@ type pluginSpec struct {
 	points         []string // behaviour insert: the insertion points used, in order
 	// emptyInsertionPoint: behaviour duplicate: the duplicate file carries insertion_point: ""
 	emptyInsertionPoint bool
+	// typeFilter: this plugin's `types:` list (v2 templates): it sees the image filtered to these
+	// types - a subset of its files, which the other plugins must not lose
+	typeFilter []string
 }
 
 type request struct {
@@ -128,6 +131,7 @@ type gsim struct {
 	importsOverride *bool
 	wktOverride     *bool
 	hostileRun      bool
+	image           bufimage.Image
 }
 
 type genFile struct {
@@ -430,9 +434,28 @@ func (m *gsim) drawPlugins() string {
 			at[role] = i
 		}
 	}
+	if v2 && special == -1 && m.plugins[0].tag != "shared" && m.tp.Draw("g.typefilter", 3) == 2 {
+		// one plugin is restricted to one message type of a targeted file
+		var names []string
+		for _, f := range m.image.Files() {
+			if fd := f.FileDescriptorProto(); !f.IsImport() && len(fd.GetMessageType()) > 0 {
+				name := fd.GetMessageType()[0].GetName()
+				if fd.GetPackage() != "" {
+					name = fd.GetPackage() + "." + name
+				}
+				names = append(names, name)
+			}
+		}
+		if len(names) > 0 {
+			m.plugins[m.tp.Draw("g.filtered", n)].typeFilter = []string{tape.Pick(m.tp, "g.type", names)}
+		}
+	}
 	for _, p := range m.plugins {
 		if v2 {
 			fmt.Fprintf(&y, "  - local: protoc-gen-%s\n    out: %s\n    strategy: %s\n", p.name, p.out, p.strategy)
+			if len(p.typeFilter) > 0 {
+				fmt.Fprintf(&y, "    types:\n      - %s\n", p.typeFilter[0])
+			}
 			if p.includeImports {
 				y.WriteString("    include_imports: true\n")
 			}
@@ -618,6 +641,7 @@ func Run(tp *tape.Tape, env *engine.Env) *engine.Outcome {
 		s.Drain()
 		return engine.FromSim(s)
 	}
+	m.image = image
 	m.base = filepath.Join(env.Scratch, "work", "proj")
 	// sometimes the project directory is the working directory and the base out directory is ".":
 	// a relative and an absolute out can then be the same directory
@@ -675,7 +699,7 @@ func Run(tp *tape.Tape, env *engine.Env) *engine.Outcome {
 	s.YieldJobs = false
 	var specs []string
 	for _, p := range m.plugins {
-		specs = append(specs, fmt.Sprintf("%s(out=%s %s imports=%v wkt=%v %s)", p.name, strings.ReplaceAll(p.out, env.Scratch, "<scratch>"), p.strategy, p.includeImports, p.includeWKT, p.behaviour))
+		specs = append(specs, fmt.Sprintf("%s(out=%s %s imports=%v wkt=%v %s types=%v)", p.name, strings.ReplaceAll(p.out, env.Scratch, "<scratch>"), p.strategy, p.includeImports, p.includeWKT, p.behaviour, p.typeFilter))
 	}
 	s.Event("case files=%d targets=%d plugins=%v par=%d", len(image.Files()), len(m.ws.Targets()), specs, par)
 
@@ -745,7 +769,7 @@ func Run(tp *tape.Tape, env *engine.Env) *engine.Outcome {
 			// source_file_descriptors; runtime-retention options are kept in both
 			for _, f := range r.toGenerate {
 				wf := m.ws.Files[f]
-				if wf == nil || !wf.HasCustomOptions {
+				if wf == nil || !wf.HasCustomOptions || len(p.typeFilter) > 0 {
 					continue
 				}
 				rt, src := r.runtimeOpts[f], r.sourceOpts[f]
@@ -777,7 +801,11 @@ func Run(tp *tape.Tape, env *engine.Env) *engine.Outcome {
 				m.violate("exactly-once", "unrequested", "plugin %s was asked to generate %s which is neither targeted nor a requested import", p.name, f)
 			}
 		}
-		if complete {
+		if len(p.typeFilter) > 0 {
+			// which files keep something under a type filter is the filter's business (C12): this plugin may
+			// be asked for fewer files, never for other ones or twice - and the OTHER plugins for no fewer
+			m.s.Probe("plugin-with-type-filter")
+		} else if complete {
 			for _, f := range simfs.SortedKeys(want) {
 				if got[f] == 0 {
 					m.violate("exactly-once", "missing", "plugin %s was never asked to generate %s", p.name, f)
